@@ -174,8 +174,8 @@ Definition CONTENT_LENGTH : list N :=          (* "Content-Length" *)
 
 Inductive dres : Type :=
 | NeedMore                                 (* Ok(None) *)
-| Frame (body : list N) (consumed : N)     (* the buffer is advanced by `consumed`; the result is
-                                              Ok(Some(msg)) or Err(InvalidContent) depending on the JSON *)
+| Frame (body : list N) (consumed : N)     (* the buffer is advanced by `consumed`; what is returned
+                                              depends on the JSON in the body (see jclass below) *)
 | Bad                                      (* Err(CodecError::InvalidHeaders) *)
 | Crash.                                   (* panic: content_start + content_length exceeds usize::MAX
                                               ("attempt to add with overflow" with overflow checks, otherwise
@@ -215,6 +215,16 @@ Definition encode_frame (body : list N) : list N :=
 (* ------------------------------------------------------------------------------------------ *)
 (* tokio_util::codec::FramedRead<_, LSCodec> as a function of the sequence of reads *)
 
+(* What `serde_json::from_slice(content)` makes of a body.  In the pinned io.rs the target type is
+   inferred from the return type of decode as Option<Message>, so the JSON text `null` (with
+   optional JSON whitespace around it) deserialises to None: decode returns Ok(None) although the
+   buffer has been advanced past the frame (JNull).  Deserialising to Message (the repaired code)
+   leaves two outcomes only. *)
+Inductive jclass : Type :=
+| JMsg       (* Ok(Some(message)) *)
+| JNull      (* Ok(None), frame consumed *)
+| JBad.      (* Err(CodecError::InvalidContent), frame consumed *)
+
 Inductive event : Type :=
 | EMsg (body : list N)        (* Some(Ok(message)) *)
 | EErr                        (* Some(Err(InvalidHeaders)), then the stream ends *)
@@ -222,16 +232,16 @@ Inductive event : Type :=
 | ECrash                      (* decode panicked *)
 | ETrailing.                  (* decode_eof: Err("bytes remaining on stream") *)
 
-(* Calls `decode` until it returns Ok(None) (result: the events and Some remaining buffer) or an
-   error (None: has_errored, the stream yields nothing more).
-   `drain json_ok k buf` first drops k bytes and then decodes; written this way the recursion is
+(* Calls `decode` until it returns Ok(None) (result: the events and Some remaining buffer; FramedRead
+   then goes back to reading) or an error (None: has_errored, the stream yields nothing more).
+   `drain jc k buf` first drops k bytes and then decodes; written this way the recursion is
    structural in the buffer (a frame consumes at least one byte): after a frame of n bytes at
    `_ :: t` the rest of the work is on t minus its first n-1 bytes.
    Proofs/CodecProofs.v (drain_eq) shows
-     drain json_ok 0 buf = match decode buf with Frame m n => .. drain json_ok 0 (skipn n buf) .. *)
-Fixpoint drain (json_ok : list N -> bool) (skip : nat) (buf : list N) : list event * option (list N) :=
+     drain jc 0 buf = match decode buf with Frame m n => .. drain jc 0 (skipn n buf) .. *)
+Fixpoint drain (jc : list N -> jclass) (skip : nat) (buf : list N) : list event * option (list N) :=
   match skip, buf with
-  | S k, _ :: t => drain json_ok k t
+  | S k, _ :: t => drain jc k t
   | S _, [] => ([], Some [])
   | O, [] => ([], Some [])
   | O, _ :: t =>
@@ -240,30 +250,43 @@ Fixpoint drain (json_ok : list N -> bool) (skip : nat) (buf : list N) : list eve
       | Bad => ([EErr], None)
       | Crash => ([ECrash], None)
       | Frame m n =>
-          if json_ok m
-          then let (ev, r) := drain json_ok (N.to_nat n - 1) t in (EMsg m :: ev, r)
-          else ([EBadJson m], None)
+          match jc m with
+          | JMsg => let (ev, r) := drain jc (N.to_nat n - 1) t in (EMsg m :: ev, r)
+          | JNull => ([], Some (skipn (N.to_nat n - 1) t))
+          | JBad => ([EBadJson m], None)
+          end
       end
   end.
 
-(* end of input (a read of 0 bytes): decode_eof is called until it returns Ok(None) or Err *)
-Definition at_eof (json_ok : list N -> bool) (buf : list N) : list event :=
-  match drain json_ok 0 buf with
+(* end of input (a read of 0 bytes): decode_eof is called until it returns Ok(None) or Err;
+   Ok(None) from decode with a non-empty buffer is Err("bytes remaining on stream") *)
+Definition at_eof (jc : list N -> jclass) (buf : list N) : list event :=
+  match drain jc 0 buf with
   | (ev, None) => ev
   | (ev, Some []) => ev
   | (ev, Some (_ :: _)) => ev ++ [ETrailing]
   end.
 
-(* each read appends its bytes to the buffer, then the buffer is drained *)
-Fixpoint feed_chunks (json_ok : list N -> bool) (buf : list N) (chunks : list (list N)) : list event :=
+(* each read appends its bytes to the buffer, then the buffer is drained.  (A chunk stands for a
+   non-empty read; an empty chunk changes nothing here, whereas a real read of 0 bytes is the end
+   of input.) *)
+Fixpoint feed_chunks (jc : list N -> jclass) (buf : list N) (chunks : list (list N)) : list event :=
   match chunks with
-  | [] => at_eof json_ok buf
+  | [] => at_eof jc buf
   | c :: cs =>
-      match drain json_ok 0 (buf ++ c) with
+      match drain jc 0 (buf ++ c) with
       | (ev, None) => ev
-      | (ev, Some buf') => ev ++ feed_chunks json_ok buf' cs
+      | (ev, Some buf') => ev ++ feed_chunks jc buf' cs
       end
   end.
 
+(* the pinned code: three-valued classification of bodies *)
+Definition run_chunks_pinned (jc : list N -> jclass) (chunks : list (list N)) : list event :=
+  feed_chunks jc [] chunks.
+
+(* the codec whose decode deserialises to Message: a body is a message or it is not *)
+Definition jc_of_bool (json_ok : list N -> bool) (body : list N) : jclass :=
+  if json_ok body then JMsg else JBad.
+
 Definition run_chunks (json_ok : list N -> bool) (chunks : list (list N)) : list event :=
-  feed_chunks json_ok [] chunks.
+  run_chunks_pinned (jc_of_bool json_ok) chunks.
